@@ -15,7 +15,7 @@ fn fe_stub<T: Into<String>>(_what: T, where_: Option<Offset>) -> FormatError {
     FormatError { what: String::new(), where_ }
 }
 
-// oblig: C14.byte_size_parse kind=complete tier=thorough timeout=900
+// oblig: C14.byte_size_parse kind=complete timeout=400
 #[kani::proof]
 #[kani::unwind(6)]
 #[kani::stub(std::fmt::format, fmt_stub)]
@@ -31,7 +31,7 @@ fn k_bytesize_parse_total() {
     kani::cover!(data[0] == 8);
 }
 
-// oblig: C14.fullpackkind kind=complete tier=thorough timeout=900
+// oblig: C14.fullpackkind kind=complete timeout=400
 #[kani::proof]
 #[kani::unwind(6)]
 #[kani::stub(std::fmt::format, fmt_stub)]
